@@ -67,7 +67,7 @@ def required(tier):
            'C02.form.strided', 'C02.form.single', 'C02.form.int',
            'C02.form.prep-array', 'C02.form.prep-callable',
            'C02.form.float32', 'C02.form.float32-transform',
-           'C02.batch-size']}
+           'C02.batch-size', 'C02.closure-mixed-dtypes']}
 
 
 def run_case(spec, j):
@@ -167,6 +167,28 @@ def run_case(spec, j):
       dc = np.array([metric(u[i], v[i]) for i in range(n)])
       dsq = np.array([metric(u[i], v[i], squared=True) for i in range(n)])
     j.close('C02.closure', dc[sel], d1[sel], tol_diff[sel], det)
+    # the two arguments of one call may be stored differently (an integer
+    # grid point and a measured point, a float32 and a float64 vector): each
+    # is the number it holds, whatever the other one is
+    if qc in ('train', 'gauss', 'int'):
+      mixed_ok, why_m = True, None
+      with np.errstate(all='ignore'):
+        for i in range(min(n, 6)):
+          ui = np.round(u[i])
+          if np.abs(ui).max() < 2 ** 31 and np.all(np.isfinite(v[i])):
+            ref_a = metric(ui, v[i])
+            for form in (ui.astype(np.int64), ui.astype(np.int64).tolist(),
+                         ui.astype(np.int32)):
+              a_, b_ = metric(form, v[i]), metric(v[i], form)
+              if not (a_ == ref_a and b_ == metric(v[i], ui)):
+                mixed_ok, why_m = False, ('int/float', i, a_, ref_a)
+          u32 = u[i].astype(np.float32)
+          if np.all(np.isfinite(u32)) and np.all(np.isfinite(v[i])):
+            ref_b = metric(u32.astype(np.float64), v[i])
+            a_, b_ = metric(u32, v[i]), metric(v[i], u32)
+            if not (a_ == ref_b and b_ == metric(v[i], u32.astype(float))):
+              mixed_ok, why_m = False, ('float32/float64', i, a_, ref_b)
+      j.check('C02.closure-mixed-dtypes', mixed_ok, dict(det, why=why_m))
     j.close('C02.closure-squared', dsq[sel], dc[sel] ** 2,
             8 * EPS * dc[sel] ** 2 + 1e-300, det)
     # transform route
